@@ -683,6 +683,17 @@ func (pc *PeerConnection) hasLocalDescriptionChanged(desc *SessionDescription) b
 	return false
 }
 
+// updateGreaterMid raises greaterMid to a numeric mid that is in use.
+// caller of this method should hold `pc.mu` lock.
+func (pc *PeerConnection) updateGreaterMid(mid string) {
+	if mid == "" {
+		return
+	}
+	if numericMid, err := strconv.Atoi(mid); err == nil && numericMid > pc.greaterMid {
+		pc.greaterMid = numericMid
+	}
+}
+
 // CreateOffer starts the PeerConnection and generates the localDescription
 // https://w3c.github.io/webrtc-pc/#dom-rtcpeerconnection-createoffer
 //
@@ -730,32 +741,25 @@ func (pc *PeerConnection) CreateOffer(options *OfferOptions) (SessionDescription
 
 		// include unmatched local transceivers
 		if !isPlanB { //nolint:nestif
-			// update the greater mid if the remote description provides a greater one
-			if pc.currentRemoteDescription != nil {
-				var numericMid int
-				for _, media := range pc.currentRemoteDescription.parsed.MediaDescriptions {
-					mid := getMidValue(media)
-					if mid == "" {
-						continue
-					}
-					numericMid, err = strconv.Atoi(mid)
-					if err != nil {
-						continue
-					}
-					if numericMid > pc.greaterMid {
-						pc.greaterMid = numericMid
-					}
+			// New mids are numbered above every numeric mid in use: the mids of all descriptions we hold
+			// (a pending one may carry mids that no current description has yet) and of all transceivers,
+			// whatever their position in the list.
+			for _, description := range []*SessionDescription{
+				pc.currentRemoteDescription, pc.pendingRemoteDescription,
+				pc.currentLocalDescription, pc.pendingLocalDescription,
+			} {
+				if description == nil || description.parsed == nil {
+					continue
+				}
+				for _, media := range description.parsed.MediaDescriptions {
+					pc.updateGreaterMid(getMidValue(media))
 				}
 			}
 			for _, t := range currentTransceivers {
-				if mid := t.Mid(); mid != "" {
-					numericMid, errMid := strconv.Atoi(mid)
-					if errMid == nil {
-						if numericMid > pc.greaterMid {
-							pc.greaterMid = numericMid
-						}
-					}
-
+				pc.updateGreaterMid(t.Mid())
+			}
+			for _, t := range currentTransceivers {
+				if t.Mid() != "" {
 					continue
 				}
 				pc.greaterMid++
